@@ -11,43 +11,39 @@
    The model follows the code of the *fixed* tree (see corpus/C12 for the defects of the pinned
    tree and the `fix:` commits). *)
 From Coq Require Import ZArith List Bool Lia.
-From IPV8V Require Import lib.PyErr lib.Bytes lib.BE.
+From IPV8V Require Import lib.PyErr lib.Bytes lib.BE model.M02_wire.
 Import ListNotations.
 Open Scope Z_scope.
 
 Definition key := Z.        (* public key material; the mid (sha1 of it) is identified with it *)
 Definition service := Z.    (* 20-byte service / community id *)
 
-(* UDPv4Address(ip, port) / UDPv6Address(ip, port); ip as the integer value of inet_pton *)
-Inductive addr : Type :=
-| A4 (ip port : Z)
-| A6 (ip port : Z).
-
-Definition addr_eqb (a b : addr) : bool :=
-  match a, b with
-  | A4 i p, A4 j q => (i =? j) && (p =? q)
-  | A6 i p, A6 j q => (i =? j) && (p =? q)
-  | _, _ => false
-  end.
+(* Addresses are the ones of the C02 wire model (model/M02_wire.v): A4 ip port = UDPv4Address (4 address
+   bytes), A6 ip port = UDPv6Address (16 address bytes), ADom host port = DomainAddress (host name as
+   its UTF-8 encoding); equality is M02_wire.addr_eqb.  A host name is assumed not to be an IP literal
+   (Python compares address tuples by value: DomainAddress("1.2.3.4", 5) == UDPv4Address("1.2.3.4", 5)). *)
 
 (* Peer.addresses : dict[type[Address], Address]; one slot per interface class *)
-Record addrmap : Type := mkAm { am4 : option (Z * Z); am6 : option (Z * Z) }.
+Record addrmap : Type := mkAm { am4 : option addr; am6 : option addr; amd : option addr }.
 
-Definition am_values (m : addrmap) : list addr :=
-  (match am4 m with Some (i, p) => [A4 i p] | None => [] end) ++
-  (match am6 m with Some (i, p) => [A6 i p] | None => [] end).
+Definition opt_list {A} (o : option A) : list A := match o with Some a => [a] | None => [] end.
+Definition am_values (m : addrmap) : list addr := opt_list (am4 m) ++ opt_list (am6 m) ++ opt_list (amd m).
 
 (* known.addresses.update(peer.addresses) *)
+Definition opt_or {A} (new old : option A) : option A := match new with Some x => Some x | None => old end.
 Definition am_update (m m' : addrmap) : addrmap :=
-  mkAm (match am4 m' with Some x => Some x | None => am4 m end)
-       (match am6 m' with Some x => Some x | None => am6 m end).
+  mkAm (opt_or (am4 m') (am4 m)) (opt_or (am6 m') (am6 m)) (opt_or (amd m') (amd m)).
 
-(* Peer.address: INTERFACE_ORDER = [UDPv6Address, UDPv4Address, tuple]; no address -> 0.0.0.0:0 *)
-Definition null_addr : addr := A4 0 0.
+(* Peer.address: INTERFACE_ORDER = [UDPv6Address, UDPv4Address, tuple, DomainAddress] (host names last,
+   fix 7095a0f; plain tuples are not modelled); no address -> 0.0.0.0:0 *)
+Definition null_addr : addr := A4 [0; 0; 0; 0] 0.
 Definition am_preferred (m : addrmap) : addr :=
   match am6 m with
-  | Some (i, p) => A6 i p
-  | None => match am4 m with Some (i, p) => A4 i p | None => null_addr end
+  | Some a => a
+  | None => match am4 m with
+            | Some a => a
+            | None => match amd m with Some a => a | None => null_addr end
+            end
   end.
 
 (* WalkableAddress(introduced_by, services, new_style); introduced_by = b"" is None *)
@@ -85,7 +81,7 @@ Definition evict {A} (cap : Z) (c : list A) : list A :=
 
 (* ------------------------------------------------------------------ heap of Peer objects *)
 Definition obj := (key * addrmap)%type.
-Definition null_obj : obj := (0, mkAm None None).
+Definition null_obj : obj := (0, mkAm None None None).
 Definition hget (h : list obj) (i : nat) : obj := nth i h null_obj.
 Definition hkey (h : list obj) (i : nat) : key := fst (hget h i).
 Definition haddrs (h : list obj) (i : nat) : addrmap := snd (hget h i).
@@ -340,54 +336,49 @@ Definition remove_peer (n : net) (k : key) (am : addrmap) : net :=
   set_services (set_by_key n2 (d_del Z.eqb k (by_key n))) (d_del Z.eqb k (services n)).
 
 (* ------------------------------------------------------------------ snapshot codec *)
-(* default_serializer.pack("address", a): >B4sH with type 1, >B16sH with type 3 *)
-Definition pack_addr (a : addr) : bytes :=
-  match a with
-  | A4 ip port => 1 :: be_encode 4 ip ++ be_encode 2 port
-  | A6 ip port => 3 :: be_encode 16 ip ++ be_encode 2 port
+(* default_serializer.pack("address", a) / .unpack("address", data, offset): the `address` packer of the
+   C02 wire model (FAddr false: IPv4, IPv6 and host-name records), absolute offsets as in the code *)
+Definition wire_keys : bytes -> bool := fun _ => true.    (* an address holds no key material *)
+Definition pack_address (a : addr) : res bytes := pack wire_keys (FAddr false) (VAddr a).
+Definition unpack_address (d : bytes) (off : nat) : res (addr * nat) :=
+  match unpack wire_keys (FAddr false) d off with
+  | Ok (VAddr a, o) => Ok (a, o)
+  | Ok _ => Raise TypeError
+  | Raise e => Raise e
   end.
 
 Definition snapshot_addrs (n : net) : list addr :=
   filter (fun a => negb (addr_eqb a null_addr))
          (map (fun i => am_preferred (haddrs (heap n) i)) (verified n)).
-Definition snapshot_records (n : net) : list bytes := map pack_addr (snapshot_addrs n).
-Definition snapshot (n : net) : bytes := concat (snapshot_records n).
+Definition snapshot_records (n : net) : list (res bytes) := map pack_address (snapshot_addrs n).
+(* out += pack(...) for every verified peer; an address that cannot be packed raises out of snapshot() *)
+Definition snapshot (n : net) : res bytes := concat_res (snapshot_records n).
 
-(* default_serializer.unpack("address", data, offset) on the suffix at `offset`; None = any
-   exception (struct.error on truncation, PackError on an unknown type).  Host-name records
-   (type 2) are not modelled: a snapshot of v4/v6 peers never contains one. *)
-Definition unpack_addr (d : bytes) : option (addr * nat) :=
-  match d with
-  | 1 :: r => if (6 <=? length r)%nat
-              then Some (A4 (be_decode (firstn 4 r)) (be_decode (firstn 2 (skipn 4 r))), 7%nat)
-              else None
-  | 3 :: r => if (18 <=? length r)%nat
-              then Some (A6 (be_decode (firstn 16 r)) (be_decode (firstn 2 (skipn 16 r))), 19%nat)
-              else None
-  | _ => None
+Fixpoint seq_res {A} (l : list (res A)) : res (list A) :=
+  match l with
+  | [] => Ok []
+  | r :: tl => do a <- r; do b <- seq_res tl; Ok (a :: b)
   end.
 
-(* the `while offset < snaplen` loop; an exception leaves offset unchanged, hence `break`.
-   Returns the state and whether the fuel ran out (never, see load_snapshot_total). *)
-Fixpoint load_loop (fuel : nat) (d : bytes) (all : list (addr * walk)) (c : list (key * list addr))
+(* the `while offset < snaplen` loop: whatever unpacks is kept (any family), any exception leaves the
+   offset unchanged, hence `break`.  Returns the state and whether the fuel ran out (never, see
+   load_snapshot_total). *)
+Definition blank : walk := mkWalk None None false.
+Fixpoint load_loop (fuel : nat) (d : bytes) (off : nat) (all : list (addr * walk)) (c : list (key * list addr))
   : list (addr * walk) * list (key * list addr) * bool :=
-  match d with
-  | [] => (all, c, false)
-  | _ =>
-      match fuel with
-      | O => (all, c, true)
-      | S f =>
-          match unpack_addr d with
-          | None => (all, c, false)
-          | Some (a, used) =>
-              load_loop f (skipn used d) (d_set addr_eqb a (mkWalk None None false) all)
-                        (forget_intro a c)
-          end
-      end
-  end.
+  if (off <? length d)%nat then
+    match fuel with
+    | O => (all, c, true)
+    | S f =>
+        match unpack_address d off with
+        | Raise _ => (all, c, false)
+        | Ok (a, o) => load_loop f d o (d_set addr_eqb a blank all) (forget_intro a c)
+        end
+    end
+  else (all, c, false).
 
 Definition load_snapshot (n : net) (d : bytes) : net :=
-  let '(all, c, _) := load_loop (length d) d (all_addrs n) (intro_cache n) in
+  let '(all, c, _) := load_loop (length d) d 0 (all_addrs n) (intro_cache n) in
   set_intro_cache (set_all n all) c.
 
 (* ------------------------------------------------------------------ operations *)
@@ -412,7 +403,8 @@ Inductive ret : Type :=
 | RPeers (l : list nat)
 | RAddrs (l : list addr)
 | RSvcs (l : list service)
-| RRecords (l : list bytes).
+| RRecords (l : list bytes)
+| RRaise (e : exn).
 
 Definition step (n : net) (o : op) : net * ret :=
   match o with
@@ -428,7 +420,7 @@ Definition step (n : net) (o : op) : net * ret :=
   | GetServicesForPeer k => (n, RSvcs (get_services_for_peer n k))
   | GetWalkable s old => let '(n1, r) := get_walkable_addresses n s old in (n1, RAddrs r)
   | GetIntroductionsFrom k => let '(n1, r) := get_introductions_from n k in (n1, RAddrs r)
-  | Snapshot => (n, RRecords (snapshot_records n))
+  | Snapshot => (n, match seq_res (snapshot_records n) with Ok l => RRecords l | Raise e => RRaise e end)
   | LoadSnapshot d => (load_snapshot n d, RUnit)
   end.
 
@@ -455,18 +447,21 @@ Fixpoint insert_z (x : Z) (l : list Z) : list Z :=
   end.
 Definition sort_z (l : list Z) : list Z := fold_right insert_z [] l.
 
+Definition bytes_code (b : bytes) : Z := fold_left (fun acc x => acc * 256 + x) b 1.
 Definition addr_code (a : addr) : Z :=
-  match a with A4 i p => 2 * (i * 65536 + p) | A6 i p => 2 * (i * 65536 + p) + 1 end.
+  match a with
+  | A4 ip p => 4 * (bytes_code ip * 65536 + p) + 1
+  | A6 ip p => 4 * (bytes_code ip * 65536 + p) + 2
+  | ADom h p => 4 * (bytes_code h * 65536 + p) + 3
+  end.
 Definition opt_code (o : option Z) : Z := match o with Some x => x | None => -1 end.
 Definition am_code (m : addrmap) : list Z :=
-  [match am4 m with Some (i, p) => addr_code (A4 i p) | None => -1 end;
-   match am6 m with Some (i, p) => addr_code (A6 i p) | None => -1 end].
+  [opt_code (option_map addr_code (am4 m)); opt_code (option_map addr_code (am6 m));
+   opt_code (option_map addr_code (amd m))].
 Definition obj_code (h : list obj) (i : nat) : list Z :=
   Z.of_nat i :: hkey h i :: am_code (haddrs h i).
 Definition len_z {A} (l : list A) : Z := Z.of_nat (length l).
 Definition ids_sorted (l : list nat) : list nat := map Z.to_nat (sort_z (map Z.of_nat l)).
-Definition bytes_code (b : bytes) : Z := fold_left (fun acc x => acc * 256 + x) b 1.
-
 Definition flat_ret (h : list obj) (r : ret) : list Z :=
   match r with
   | RUnit => [0]
@@ -476,6 +471,7 @@ Definition flat_ret (h : list obj) (r : ret) : list Z :=
   | RAddrs l => 3 :: len_z l :: sort_z (map addr_code l)
   | RSvcs l => 4 :: len_z l :: sort_z l
   | RRecords l => 5 :: len_z l :: sort_z (map bytes_code l)
+  | RRaise _ => [6]
   end.
 
 Definition flat_net (n : net) : list Z :=
@@ -549,5 +545,6 @@ Fixpoint detail_from (n : net) (ops : list op) : list (list Z * list Z) :=
 Definition run_detail (c : c12_case) := detail_from (case_init c) (case_path c ++ case_fan c).
 
 (* round trip of a snapshot into a fresh Network: the walkable addresses afterwards *)
-Definition snapshot_reload (n : net) : list addr :=
-  snd (get_walkable_addresses (load_snapshot (init_net 500 500 500 [] []) (snapshot n)) None false).
+Definition snapshot_reload (n : net) : res (list addr) :=
+  do d <- snapshot n;
+  Ok (snd (get_walkable_addresses (load_snapshot (init_net 500 500 500 [] []) d) None false)).
